@@ -156,6 +156,15 @@ impl<'a> IrEmitter<'a> {
         let plan = determine_binop_plan(op, left, right);
         let l = plan.lhs_conv.apply(l_raw);
         let r = plan.rhs_conv.apply(r_raw);
+        // A cast cannot be followed directly by `<` (parsed as the start of generic arguments) or by a method call
+        // (`(a) as f64.powf(b)`), so parenthesise a converted left operand in exactly those positions.
+        let l = if matches!(plan.lhs_conv, crate::backend::ir::conversions::NumericConversion::ToFloat)
+            && (matches!(op, BinOp::Lt | BinOp::Shl) || matches!(plan.emit, BinOpEmitKind::Pow { .. }))
+        {
+            quote! { (#l) }
+        } else {
+            l
+        };
 
         match plan.emit {
             BinOpEmitKind::StdlibCall { path } => Ok(quote! { #path(#l, #r) }),
